@@ -440,4 +440,34 @@ example : (decodeSigner (fun _ => none) ((List.replicate 20 0xAA) ++ [0x11, 0x01
     (fun p => (p.1.scopes, p.1.allowedContracts.length, p.2)) = some (0x11, 1, [0x07]) := by decide
 example : decodeSigner (fun _ => none) ((List.replicate 20 0xAA) ++ [0x81]) = none := by rfl
 
+/-- Conversely, every tree within the permitted nesting and width (hashes of 20 bytes, a key codec that
+round-trips) is decoded back from its encoding: the wire format carries exactly the trees of
+`nesting_bounded`. -/
+theorem decoder_complete (dk : Bytes → Option (Key × Bytes)) (ek : Key → Bytes)
+    (hk : ∀ k r, dk (ek k ++ r) = some (k, r)) (c : Cond) (r : Bytes)
+    (hd : c.depth ≤ maxConditionNesting) (hw : c.widthOk = true) (hh : c.hashesOk) :
+    decodeBinaryCondition dk (encodeCond ek c ++ r) = some (c, r) :=
+  decode_encode dk ek hk c maxConditionNesting r hd hw hh
+
+example : decodeBinaryCondition dkU (encodeCond ekU (.or [.not (.group 2), .scriptHash 7]) ++ [9])
+    = some (.or [.not (.group 2), .scriptHash 7], [9]) :=
+  decoder_complete dkU ekU dkU_ekU _ _ (by decide) (by decide) (by simp [Cond.hashesOk, hashesOkList])
+
+/-! ### The entry relation comes from the chain of calls -/
+
+/-- `IsCalledByEntry` is true exactly in the entry script and in scripts it loaded directly, whatever the
+hashes, callers and flags of the frames: it counts script contexts, nothing else. -/
+theorem called_by_entry_counts_calls (k : Hash → Option (List Key)) (f0 : Frame) (fs : List Frame) :
+    (Env.ofCalls k f0 fs).isCalledByEntry = decide (fs.length ≤ 1) := by
+  have h := isCalledByEntry_iff (Env.ofCalls k f0 fs)
+  unfold Env.directFromEntry at h
+  rw [ofCalls_parents_length] at h
+  cases hb : (Env.ofCalls k f0 fs).isCalledByEntry
+  · have : ¬ fs.length ≤ 1 := by rw [← h, hb]; simp
+    simp [this]
+  · simp [h.mp hb]
+
+example : (Env.ofCalls exContracts ⟨0xE0, 0, true⟩ [⟨0xC2, 0xE0, true⟩, ⟨0xC1, 0xC2, true⟩]).isCalledByEntry = false := by
+  rw [called_by_entry_counts_calls]; decide
+
 end NeoModel.Witness
